@@ -115,12 +115,19 @@ type c16Case struct {
 	Kind    Kind  `json:"kind"`
 	Client  bool  `json:"client"`
 	Proto   Proto `json:"proto"`
+	// Tree, when set, replaces Bundles/Wrap: a bracket expression over the
+	// group indices, e.g. "0(1)2" = [g0, WithOptions(g1), g2]; "(" is
+	// WithOptions, "[" is With{Client,Handler}Options.
+	Tree string `json:"tree,omitempty"`
 }
 
 func (k c16Case) key() string {
 	side := "handler"
 	if k.Client {
 		side = "client"
+	}
+	if k.Tree != "" {
+		return fmt.Sprintf("n%d/nil%b/cuts%b/empty%d/tree%s/%s/%s/%s", k.N, k.NilMask, k.Cuts, k.Empty, k.Tree, k.Kind, side, k.Proto)
 	}
 	return fmt.Sprintf("n%d/nil%b/cuts%b/empty%d/bund%b/wrap%v/%s/%s/%s", k.N, k.NilMask, k.Cuts, k.Empty, k.Bundles, k.Wrap, k.Kind, side, k.Proto)
 }
@@ -160,6 +167,10 @@ func (k c16Case) build(log *[]string) (clientOpts []connect.ClientOption, handle
 	opts := make([]connect.Option, len(groups))
 	for i, g := range groups {
 		opts[i] = connect.WithInterceptors(g...)
+	}
+	if k.Tree != "" {
+		clientOpts, handlerOpts = c16BuildTree(k.Tree, opts)
+		return clientOpts, handlerOpts, flat
 	}
 	// bundles
 	var bundles [][]connect.Option
@@ -217,6 +228,77 @@ func (k c16Case) build(log *[]string) (clientOpts []connect.ClientOption, handle
 		}
 	}
 	return clientOpts, handlerOpts, flat
+}
+
+// c16BuildTree parses a bracket expression over option indices into the
+// top-level client and handler option lists.
+func c16BuildTree(tree string, leaves []connect.Option) ([]connect.ClientOption, []connect.HandlerOption) {
+	pos := 0
+	// forest parses elements until a closing bracket or the end; both is false
+	// below a "(" node (WithOptions takes two-sided options only).
+	var forest func() (cl []connect.ClientOption, hd []connect.HandlerOption, both []connect.Option)
+	forest = func() (cl []connect.ClientOption, hd []connect.HandlerOption, both []connect.Option) {
+		for pos < len(tree) {
+			ch := tree[pos]
+			switch {
+			case ch == ')' || ch == ']':
+				return
+			case ch >= '0' && ch <= '9':
+				pos++
+				o := leaves[int(ch-'0')]
+				cl, hd, both = append(cl, o), append(hd, o), append(both, o)
+			case ch == '(':
+				pos++
+				_, _, inner := forest()
+				pos++ // ')'
+				o := connect.WithOptions(inner...)
+				cl, hd, both = append(cl, o), append(hd, o), append(both, o)
+			case ch == '[':
+				pos++
+				icl, ihd, _ := forest()
+				pos++ // ']'
+				cl, hd = append(cl, connect.WithClientOptions(icl...)), append(hd, connect.WithHandlerOptions(ihd...))
+			default:
+				panic("c16: bad tree " + tree)
+			}
+		}
+		return
+	}
+	cl, hd, _ := forest()
+	return cl, hd
+}
+
+// c16Forests lists every bracket expression over leaves lo..hi-1 (in order)
+// with nesting depth <= depth; side says whether "[" nodes are allowed here.
+func c16Forests(lo, hi, depth int, side bool) []string {
+	if lo == hi {
+		return []string{""}
+	}
+	var out []string
+	// first element covers lo..m-1, the rest is a forest over m..hi-1
+	for m := lo + 1; m <= hi; m++ {
+		var firsts []string
+		if m == lo+1 {
+			firsts = append(firsts, string(rune('0'+lo)))
+		}
+		if depth > 0 {
+			for _, f := range c16Forests(lo, m, depth-1, false) {
+				firsts = append(firsts, "("+f+")")
+			}
+			if side {
+				for _, f := range c16Forests(lo, m, depth-1, true) {
+					firsts = append(firsts, "["+f+"]")
+				}
+			}
+		}
+		rest := c16Forests(m, hi, depth, side)
+		for _, f := range firsts {
+			for _, r := range rest {
+				out = append(out, f+r)
+			}
+		}
+	}
+	return out
 }
 
 // c16Model is the reference onion of the flat list.
@@ -457,7 +539,7 @@ func c16Check(c *ev.Collector, k c16Case) {
 func TestC16(t *testing.T) {
 	c := ev.New("C16")
 	defer func() { _ = c.Finish() }()
-	c.SetRule("configuration enumeration: interceptor lists of length 0..n with nil at any subset of positions x every composition into consecutive WithInterceptors groups x an optional empty group at every position x every bundling of the groups into wrapper bundles x wrappers {flat, WithOptions, With{Client,Handler}Options, Side(WithOptions), WithOptions(WithOptions)} (all combinations for <=2 bundles, uniform for more) x {unary, client, server, bidi} x {client, handler} x protocols (rotating); each configuration is built with the real option constructors, one real call is made and the interceptor event log is compared with the reference onion of the flat non-nil list; non-trivial = at least one non-nil interceptor")
+	c.SetRule("configuration enumeration: interceptor lists of length 0..n with nil at any subset of positions x every composition into consecutive WithInterceptors groups x an optional empty group at every position x every bundling of the groups into wrapper bundles x wrappers {flat, WithOptions, With{Client,Handler}Options, Side(WithOptions), WithOptions(WithOptions)} (all combinations for <=2 bundles, uniform for more), and every option tree (direct groups and nested WithOptions / With{Client,Handler}Options composites as siblings, nesting depth per bounds) over 2..4 single-interceptor groups, x {unary, client, server, bidi} x {client, handler} x protocols (rotating); each configuration is built with the real option constructors, one real call is made and the interceptor event log is compared with the reference onion of the flat non-nil list; non-trivial = at least one non-nil interceptor")
 	c.Assume("interceptors observe only their own first Send/Receive per call", "one protocol per configuration (rotating): ordering logic is protocol independent")
 	if ev.ReplayFile() != "" {
 		var k c16Case
@@ -493,5 +575,38 @@ func TestC16(t *testing.T) {
 			}
 		}
 	}
-	c.Sample(map[string]any{"cases_per_shard_base": len(cases)})
+	// option trees: every bracket expression (mixed direct groups and nested
+	// composites as siblings) over single-interceptor groups
+	type treeDim struct{ n, depth int }
+	dims := []treeDim{{2, 3}, {3, 2}, {4, 1}}
+	if thorough {
+		dims = []treeDim{{2, 3}, {3, 3}, {4, 2}}
+	}
+	var trees int64
+	for _, d := range dims {
+		for _, tree := range c16Forests(0, d.n, d.depth, true) {
+			trees++
+			for _, kind := range AllKinds {
+				for _, client := range []bool{true, false} {
+					idx++
+					if !ev.Mine(idx) {
+						continue
+					}
+					if c.Expired() {
+						return
+					}
+					k := c16Case{N: d.n, Cuts: 1<<(d.n-1) - 1, Empty: -1, Tree: tree, Kind: kind, Client: client, Proto: AllProtos[idx%3]}
+					c.Case(k.key(), true)
+					Bubble(t, func() { c16Check(c, k) })
+				}
+			}
+		}
+	}
+	if sh, _ := ev.Shard(); sh == 0 {
+		c.AddExtra("option_trees", trees)
+	}
+	c.Bound("option_tree_leaves", 4)
+	c.Bound("option_tree_depth_at_2_3_4_leaves", dims[0].depth*100+dims[1].depth*10+dims[2].depth)
+	c.Sample(map[string]any{"cases_per_shard_base": len(cases), "option_trees": trees})
 }
+
